@@ -249,6 +249,8 @@ func (rn *runner) runCorpus(c *Corpus, mode string, next func() (QSpec, bool)) e
 		}
 	}()
 	o := newOracle(c)
+	alphaOK, nrunes := modelAlphabetOK(c)
+	nq := 0
 	for {
 		q, ok := next()
 		if !ok {
@@ -284,7 +286,12 @@ func (rn *runner) runCorpus(c *Corpus, mode string, next func() (QSpec, bool)) e
 				cs.Detail = gen.Detail(e2eDetail{Corpus: c, Query: q, MinQuery: &mq, Shard: name, Mode: mode, Missing: short(m2), Extra: short(e2), Err: v2})
 			}
 			rn.w.Emit(cs)
+			// correspondence with the Lean engine model on the same (shard, query)
+			if alphaOK && (nrunes < 1500 || nq%6 == 0) {
+				traceCase(rn.w, sh, &q, e2eDetail{Corpus: c, Query: q, Shard: name, Mode: mode})
+			}
 		}
+		nq++
 	}
 	return nil
 }
